@@ -417,23 +417,23 @@ def headerSizeFilters : List FilterOpts → Nat → Nat → Res Nat
       | .error e => .error e
       | .ok add => headerSizeFilters rest (i + 1) (size + add)
 
+/-- Size contribution of an optional VLI field in `lzma_block_header_size` (`zeroBad`: a known value 0 is an error,
+    as for Compressed Size). -/
+def sizeOptVli (zeroBad : Bool) : Option Nat → Res Nat
+  | none => .ok 0
+  | some v => if vliSize v = 0 ∨ (zeroBad ∧ v = 0) then .error .progError else .ok (vliSize v)
+
 /-- `lzma_block_header_size`: the value stored to `block->header_size`. -/
 def blockHeaderSize (version : Nat) (compressedSize uncompressedSize : Option Nat) (fs : List FilterOpts) : Res Nat :=
   if version > 1 then .error .optionsError
-  else
-    let size := 1 + 1 + 4
-    match (match compressedSize with
-           | none => Except.ok size
-           | some cs => if vliSize cs = 0 ∨ cs = 0 then Except.error Ret.progError else Except.ok (size + vliSize cs)) with
+  else match sizeOptVli true compressedSize with
     | .error e => .error e
-    | .ok size =>
-      match (match uncompressedSize with
-             | none => Except.ok size
-             | some us => if vliSize us = 0 then Except.error Ret.progError else Except.ok (size + vliSize us)) with
+    | .ok a =>
+      match sizeOptVli false uncompressedSize with
       | .error e => .error e
-      | .ok size =>
+      | .ok b =>
         if fs.isEmpty then .error .progError
-        else match headerSizeFilters fs 0 size with
+        else match headerSizeFilters fs 0 (1 + 1 + 4 + a + b) with
           | .error e => .error e
           | .ok size => .ok ((size + 3) / 4 * 4)
 
@@ -449,6 +449,15 @@ def headerEncodeFilters : List FilterOpts → Nat → Nat → Res (List UInt8)
         | .error e => .error e
         | .ok more => .ok (bs ++ more)
 
+/-- An optional VLI field written by `lzma_block_header_encode` into `avail` remaining bytes. -/
+def encOptVli : Option Nat → Nat → Res (List UInt8)
+  | none, _ => .ok []
+  | some v, avail => vliEncodeSingle v avail
+
+/-- The Block Flags byte: number of filters − 1, bit 6 = Compressed Size present, bit 7 = Uncompressed Size present. -/
+def blockFlagsByte (nfilters : Nat) (hasCs hasUs : Bool) : Nat :=
+  (nfilters - 1) + (if hasCs then 0x40 else 0) + (if hasUs then 0x80 else 0)
+
 /-- `lzma_block_header_encode(block, out)` with the given `block->version/header_size/check/sizes/filters`:
     the `header_size` bytes written. -/
 def blockHeaderEncodeWith (version headerSize check : Nat) (compressedSize uncompressedSize : Option Nat)
@@ -456,22 +465,18 @@ def blockHeaderEncodeWith (version headerSize check : Nat) (compressedSize uncom
   if blockUnpaddedSize version headerSize check compressedSize = 0 ∨ !vliIsValid uncompressedSize then .error .progError
   else
     let outSize := headerSize - 4
-    match (match compressedSize with
-           | none => Except.ok []
-           | some cs => vliEncodeSingle cs (outSize - 2)) with
+    match encOptVli compressedSize (outSize - 2) with
     | .error e => .error e
     | .ok csb =>
-      match (match uncompressedSize with
-             | none => Except.ok []
-             | some us => vliEncodeSingle us (outSize - 2 - csb.length)) with
+      match encOptVli uncompressedSize (outSize - 2 - csb.length) with
       | .error e => .error e
       | .ok usb =>
         if fs.isEmpty then .error .progError
         else match headerEncodeFilters fs 0 (outSize - 2 - csb.length - usb.length) with
           | .error e => .error e
           | .ok ffb =>
-            let flags := (fs.length - 1) + (if compressedSize.isSome then 0x40 else 0) + (if uncompressedSize.isSome then 0x80 else 0)
-            let body := [UInt8.ofNat (outSize / 4), UInt8.ofNat flags] ++ csb ++ usb ++ ffb
+            let body := [UInt8.ofNat (outSize / 4), UInt8.ofNat (blockFlagsByte fs.length compressedSize.isSome uncompressedSize.isSome)]
+                          ++ csb ++ usb ++ ffb
             let body := body ++ List.replicate (outSize - body.length) (0 : UInt8)
             .ok (body ++ le32 (crc32 body))
 
@@ -492,6 +497,14 @@ def headerDecodeFilters : Nat → List UInt8 → Res (List Filter × List UInt8)
       | .error e => .error e
       | .ok (fs, r') => .ok (f :: fs, r')
 
+/-- An optional VLI field read by `lzma_block_header_decode` when its flag bit is set. -/
+def decOptVli (present : Bool) (b : List UInt8) : Res (Option Nat × List UInt8) :=
+  if present then
+    match vliDecode b with
+    | none => .error .dataError
+    | some (v, r) => .ok (some v, r)
+  else .ok (none, b)
+
 /-- `lzma_block_header_decode(block, NULL, in)` with `block->header_size = headerSize`, `block->check = check`
     (`block->version` ≤ 1 after the function's own clamping). `b` holds at least `headerSize` bytes. -/
 def blockHeaderDecodeWith (headerSize check : Nat) (b : List UInt8) : Res BlockHeader :=
@@ -505,27 +518,19 @@ def blockHeaderDecodeWith (headerSize check : Nat) (b : List UInt8) : Res BlockH
       let fl := (b.getD 1 0).toNat
       if fl / 4 % 16 ≠ 0 then .error .optionsError      -- in[1] & 0x3C
       else
-        match (if fl / 64 % 2 = 1 then
-                 match vliDecode (hdr.drop 2) with
-                 | none => Except.error Ret.dataError
-                 | some (cs, r) =>
-                   if blockUnpaddedSize 1 headerSize check (some cs) = 0 then Except.error Ret.dataError
-                   else Except.ok (some cs, r)
-               else Except.ok (none, hdr.drop 2)) with
+        match decOptVli (fl / 64 % 2 = 1) (hdr.drop 2) with
         | .error e => .error e
         | .ok (cs, r1) =>
-          match (if fl / 128 % 2 = 1 then
-                   match vliDecode r1 with
-                   | none => Except.error Ret.dataError
-                   | some (us, r) => Except.ok (some us, r)
-                 else Except.ok (none, r1)) with
-          | .error e => .error e
-          | .ok (us, r2) =>
-            match headerDecodeFilters (fl % 4 + 1) r2 with
+          -- `lzma_block_unpadded_size(block) == 0` right after a Compressed Size has been decoded
+          if cs.isSome ∧ blockUnpaddedSize 1 headerSize check cs = 0 then .error .dataError
+          else match decOptVli (fl / 128 % 2 = 1) r1 with
             | .error e => .error e
-            | .ok (fs, r3) =>
-              if r3.any (· ≠ 0) then .error .optionsError
-              else .ok { compressedSize := cs, uncompressedSize := us, filters := fs }
+            | .ok (us, r2) =>
+              match headerDecodeFilters (fl % 4 + 1) r2 with
+              | .error e => .error e
+              | .ok (fs, r3) =>
+                if r3.any (· ≠ 0) then .error .optionsError
+                else .ok { compressedSize := cs, uncompressedSize := us, filters := fs }
 
 /-- Block Header decoding as every caller does it: `header_size` comes from the first byte. -/
 def blockHeaderDecode (check : Nat) (b : List UInt8) : Res BlockHeader :=
